@@ -91,15 +91,23 @@ static void over_identity(vh::Rng & rng, unsigned nboxes)
             cfg.min[k] = a;
             cfg.max[k] = c;
         }
+        typename backend_t::configuration_t handed = cfg;
         if (b % 4 == 3) {
-            // a cubic box written with one scalar per member (covfie::array's broadcasting constructor)
+            // a cubic box written with one scalar per member (covfie::array's broadcasting constructor); `cfg` keeps
+            // what the user meant, component by component, and stays the oracle's box
             V lo = pick_bound<V>(rng), hi = pick_bound<V>(rng);
             if (hi < lo) std::swap(lo, hi);
-            cfg.min = typename field_t::coordinate_t(lo);
-            cfg.max = typename field_t::coordinate_t(hi);
+            if (lo == 0) lo = (V)1;
+            if (hi < lo) hi = lo;
+            for (std::size_t k = 0; k < N; ++k) {
+                cfg.min[k] = lo;
+                cfg.max[k] = hi;
+            }
+            handed.min = typename field_t::coordinate_t(lo);
+            handed.max = typename field_t::coordinate_t(hi);
         }
         vh::set_case("%s box#%u", name.c_str(), b);
-        field_t f(covfie::make_parameter_pack(typename backend_t::configuration_t(cfg), std::monostate{}));
+        field_t f(covfie::make_parameter_pack(typename backend_t::configuration_t(handed), std::monostate{}));
         typename field_t::view_t view(f);
         std::vector<V> cat[N];
         uint64_t total = 1;
